@@ -237,6 +237,101 @@ fn run_sa(s: &mut Session, c: &SaCase) {
     }
 }
 
+/// Starting lists made of a few colours repeated (A,A,A,B,B …): moves that leave the score exactly
+/// equal, closest pairs at distance 0, ties everywhere. Each case runs once against the model and the
+/// brute-force oracle, and a second time as two consecutive `run()` calls on one object (as
+/// `distinct_colors` does), with the oracle after each.
+pub fn tie_cases(s: &mut Session, ctx: &Ctx) {
+    let mut rng = Rng::new(ctx.seed ^ 0x7135);
+    let reps = if ctx.thorough { 40 } else { 6 };
+    let mut cases = 0u64;
+    for pattern in [&[0usize, 0, 0, 1, 1][..], &[0, 0, 1, 1, 2], &[0, 0, 0, 0], &[0, 1, 0, 1, 0, 1], &[0, 0, 1]] {
+        for target in [OptimizationTarget::Min, OptimizationTarget::Mean] {
+            for mode in [OptimizationMode::Global, OptimizationMode::Local] {
+                for metric in [DistanceMetric::CIE76, DistanceMetric::CIEDE2000] {
+                    for rep in 0..reps {
+                        let base: Vec<Color> = (0..3).map(|_| gen::color8(&mut rng)).collect();
+                        let colors: Vec<Color> = pattern.iter().map(|&i| base[i].clone()).collect();
+                        let num_fixed = [0usize, 0, 1, 2][rep % 4].min(colors.len());
+                        let case = SaCase {
+                            target,
+                            mode,
+                            metric,
+                            num_fixed,
+                            iters: [5usize, 20, 60, 200][rep % 4],
+                            t0: *rng.pick(&[3.0, 0.5, 1e-9]),
+                            cool: *rng.pick(&[0.95, 0.98]),
+                            rng_kind: 0,
+                            seed: rng.next(),
+                            colors,
+                        };
+                        run_sa(s, &case);
+                        run_sa_twice(s, &case);
+                        cases += 2;
+                    }
+                }
+            }
+        }
+    }
+    s.tag_n("sa-runs:ties", cases);
+}
+
+/// Two consecutive runs on one object with the parameters changed in between; the table returned by
+/// each run must equal recomputation from the colours at that moment, and the fixed colours stay.
+fn run_sa_twice(s: &mut Session, c: &SaCase) {
+    let n = c.colors.len();
+    let inp = || {
+        format!(
+            "SimulatedAnnealing (two runs) target={:?} mode={:?} metric={} fixed={} iters={} T0={:?} cool={:?} seed={} colors={:?}",
+            c.target, c.mode, metric_name(c.metric), c.num_fixed, c.iters, c.t0, c.cool, c.seed,
+            c.colors.iter().map(show_color).collect::<Vec<_>>()
+        )
+    };
+    let res = guard(|| {
+        let log = Rc::new(RefCell::new(Vec::<u64>::new()));
+        let rng = LogRng { kind: 0, state: Rng::new(c.seed), counter: 0, log };
+        let mut sa = SimulatedAnnealing::with_rng(
+            &c.colors,
+            SimulationParameters {
+                initial_temperature: c.t0,
+                cooling_rate: c.cool,
+                num_iterations: c.iters,
+                opt_target: c.target,
+                opt_mode: c.mode,
+                distance_metric: c.metric,
+                num_fixed_colors: c.num_fixed,
+            },
+            rng,
+        );
+        let r1 = sa.run(&mut |_| {});
+        let c1 = sa.get_colors();
+        sa.parameters.initial_temperature = 0.5;
+        sa.parameters.cooling_rate = 0.98;
+        sa.parameters.num_iterations = c.iters + 3;
+        sa.parameters.opt_target = if c.target == OptimizationTarget::Min { OptimizationTarget::Mean } else { OptimizationTarget::Min };
+        sa.parameters.opt_mode = OptimizationMode::Local;
+        let r2 = sa.run(&mut |_| {});
+        let c2 = sa.get_colors();
+        (c1, r1, c2, r2)
+    });
+    s.count_case(&format!("sa-twice {} {:?} {:?}", c.seed, c.target, c.mode), true);
+    match res {
+        None => s.fail("no-panic", "SimulatedAnnealing::run", inp(), "run panicked".into()),
+        Some((c1, r1, c2, r2)) => {
+            for (cols, r, which) in [(&c1, &r1, "first run"), (&c2, &r2, "second run")] {
+                s.check(cols.len() == n, "keeps-number-of-colours", "SimulatedAnnealing::run", inp, || format!("{}: {} -> {}", which, n, cols.len()));
+                for i in 0..c.num_fixed.min(n).min(cols.len()) {
+                    s.check(cols[i].to_hsla() == c.colors[i].to_hsla(), "fixed-colours-unchanged", "SimulatedAnnealing::run", inp, || format!("{}: fixed colour {} became {}", which, i, show_color(&cols[i])));
+                }
+                let labs: Vec<pastel::Lab> = cols.iter().map(|c| c.to_lab()).collect();
+                if n >= 2 {
+                    oracle(s, "SimulatedAnnealing::run", &labs, c.metric, c.num_fixed, r, &format!("{} ; {}", inp(), which));
+                }
+            }
+        }
+    }
+}
+
 pub fn run(s: &mut Session, ctx: &Ctx) {
     let mut rng = Rng::new(ctx.seed);
     // ---- rearrange_sequence ----
@@ -312,6 +407,7 @@ pub fn run(s: &mut Session, ctx: &Ctx) {
         }
     }
     s.tag_n("sa-runs", cases);
+    tie_cases(s, ctx);
 
     // ---- SimulatedAnnealing::new (the constructor with the default thread RNG): same clauses,
     // checked directly (the draws are not replayable, so no model comparison here) ----
